@@ -76,9 +76,13 @@ type c15Case struct {
 	Ambient map[string]string `json:"ambient,omitempty"`
 	// RelCache: cache-file settings are relative names; the working directory differs from the configuration's
 	RelCache bool `json:"rel_cache,omitempty"`
+	// BindV4: the four listeners are bound to 127.0.0.1 (Ambient holds the *-addr settings) instead of all addresses:
+	// the collector then sees its IPv4 exporters under 4-octet addresses, not the 16-octet form a dual-stack
+	// listener reports (cases without the ::1 exporter only)
+	BindV4 bool `json:"bind_v4,omitempty"`
 }
 
-const c15Rule = "case = 1..3 stop/start cycles of the real collector binary (each instance with all CPUs or its affinity restricted to 1, 2, 4 or 8; 2..8 workers per protocol; in about 3 of 4 cases a generated subset of the four protocols is switched off by configuration, at least one of IPFIX / NetFlow v9 stays on; rawSocket sink and restful stats owned by the harness, per-instance pid and cache files (in a quarter of the cases given as relative names with a working directory other than the configuration's), in a quarter of the cases on a file system other than the temporary directory's) with 1..8 exporters on 127.0.0.x and ::1: " +
+const c15Rule = "case = 1..3 stop/start cycles of the real collector binary (each instance with all CPUs or its affinity restricted to 1, 2, 4 or 8; 2..8 workers per protocol; in about 3 of 4 cases a generated subset of the four protocols is switched off by configuration, at least one of IPFIX / NetFlow v9 stays on; rawSocket sink and restful stats owned by the harness, per-instance pid and cache files (in a quarter of the cases given as relative names with a working directory other than the configuration's), in a quarter of the cases on a file system other than the temporary directory's) with 1..8 exporters on 127.0.0.x and ::1 (in a quarter of the cases without ::1 the listeners are bound to 127.0.0.1, so that the collector sees 4-octet exporter addresses): " +
 	"per cycle new IPFIX / NetFlow v9 templates are announced (or all known ones redefined with a shorter definition, so that the next cache file is shorter than the one it replaces; or, in a quarter of the later cycles, a quiet life: nothing new, one known template re-announced with a single specifier changed — a scope field if it has any) and acknowledged (a data message using them reached the sink), sFlow/NetFlow v5 noise, in 1 cycle of 7 a further exporter announcing 1500 or 3000 templates first (a cache file well above a megabyte), a data burst, then SIGTERM or SIGINT after a drawn delay (in 5 of 8 cycles sent once, otherwise repeated 1..1100 ms later), " +
 	"optionally with traffic (data and announcements of fresh template ids) continuing through the shutdown window, or with single late datagrams 0.9..2.1 s after the signal following a quiet period; in a fifth of the later cycles the collector first lives once with producer-enabled: false (data, sFlow and NetFlow v5 datagrams, the cycle's signal: exit 0 within 6 s); in a quarter of the later cycles an instance is first started while one of its UDP ports is held by another process (and signalled 1.2 s later if still there); a final verification restart follows the last cycle; " +
 	"oracle per cycle = exit status 0 within 6 s of the signal, stderr free of panic / fatal error / concurrent map, both cache files exist, load and decode data for every acknowledged (exporter,id) to the reference decode, " +
@@ -101,6 +105,19 @@ func genC15(t *rapid.T) c15Case {
 	c.Workers = rapid.IntRange(2, 8).Draw(t, "workers")
 	c.OtherFS = rapid.IntRange(0, 3).Draw(t, "otherfs") == 0
 	c.Ambient = genAmbient(t)
+	hasV6 := false
+	for _, n := range c.Exporters {
+		hasV6 = hasV6 || n == 0
+	}
+	if !hasV6 && rapid.IntRange(0, 3).Draw(t, "bindv4") == 0 {
+		if c.Ambient == nil {
+			c.Ambient = map[string]string{}
+		}
+		for _, key := range []string{"ipfix-addr", "netflow9-addr", "netflow5-addr", "sflow-addr"} {
+			c.Ambient[key] = `"127.0.0.1"`
+		}
+		c.BindV4 = true
+	}
 	c.RelCache = rapid.IntRange(0, 2).Draw(t, "relcache") == 0
 	// which protocols run is a valid configuration choice: a collector for one or two protocols must stop as cleanly
 	c.Disabled = rapid.SampledFrom([][]string{nil, nil, nil, {"ipfix"}, {"nf9"}, {"ipfix", "nf5"}, {"nf9", "sflow"}, {"sflow", "nf5"}, {"ipfix", "sflow", "nf5"}, {"nf9", "sflow", "nf5"}, {"nf5"}}).Draw(t, "disabled")
@@ -418,6 +435,7 @@ func runC15(c *c15Case) (v verdict, sig string, err error) {
 					k.Proto, k.Tpl.ID, r.exps[k.Exp].addr, tail(proc.stderrText(), 600))
 			}
 			v.label(true, "restart-decode-checked")
+			v.label(c.BindV4, "listeners-bound-to-an-ipv4-address")
 		}
 		if verification {
 			proc.signal(syscall.SIGTERM)
@@ -631,15 +649,8 @@ func runC15(c *c15Case) (v verdict, sig string, err error) {
 			if e != nil {
 				return fail("cache-file", "%s template cache file missing after shutdown: %v", proto, e)
 			}
-			var doc struct {
-				Cache   []json.RawMessage
-				ShardNo int
-			}
-			if e := json.Unmarshal(b, &doc); e != nil {
-				return fail("cache-file", "%s template cache file is not complete JSON (%d octets): %v", proto, len(b), e)
-			}
-			if doc.ShardNo != 32 || len(doc.Cache) != 32 {
-				return fail("cache-file", "%s template cache file has %d shards (ShardNo %d)", proto, len(doc.Cache), doc.ShardNo)
+			if !json.Valid(b) {
+				return fail("cache-file", "%s template cache file is not complete JSON (%d octets)", proto, len(b))
 			}
 			loaded, perr := safeLoad(proto, file)
 			if perr != nil {
@@ -654,7 +665,11 @@ func runC15(c *c15Case) (v verdict, sig string, err error) {
 				if e != nil {
 					return fail("", "%v", e)
 				}
-				o, perr := sequentialDecode(proto, loaded, r.exps[k.Exp].addr, data, nil)
+				seen := r.exps[k.Exp].addr
+				if c.BindV4 && seen.To4() != nil {
+					seen = seen.To4() // the form a listener bound to an IPv4 address reports
+				}
+				o, perr := sequentialDecode(proto, loaded, seen, data, nil)
 				if perr != nil {
 					return fail("cache-file", "%v", perr)
 				}
